@@ -105,7 +105,7 @@ def gen_input(rng, kind):
     if kind == "elf":
         if rng.random() < 0.5:
             from gen import elfgen as E
-            return E.build(E.gen_desc(rng)).hex()
+            return E.build(E.gen_desc_huge(rng) if rng.random() < 0.3 else E.gen_desc(rng)).hex()
         return GM.elf_bytes(rng).hex()
     # half of the time the richer per-area generators (grammar + token-level damage) of the area's own property
     if rng.random() < 0.5:
